@@ -22,6 +22,7 @@ import (
 )
 
 const (
+	dispFile = "pkg/gateway/proxy/dispatcher/dispatcher.go"
 	sarFile = "pkg/gateway/authorization/webhook/subjectaccessreview.go"
 	tokFile = "pkg/gateway/authentication/token/webhook/tokenreview.go"
 )
@@ -166,6 +167,13 @@ func main() {
 		// does the function refuse a request whose already-bound upstream cluster differs from the cluster resolved now?
 		fmt.Fprintf(&b, "/-- AuthenticateToken compares info.UpstreamCluster with the cluster returned by ClientFor -/\ndef bindsTokenToUpstream : Bool := %v\n", comparesUpstream(g, authn))
 		fmt.Fprintf(&b, "/-- Authorize compares info.UpstreamCluster with the cluster returned by ClientFor -/\ndef bindsSarToUpstream : Bool := %v\n", comparesUpstream(g, authz))
+		// ---- dispatcher: which cluster does it proxy to?
+		disp := g.ParseFile(dispFile)
+		serve := lib.FuncDecl(disp, "dispatcher", "ServeHTTP")
+		if serve == nil {
+			lib.Fatalf("dispatcher.ServeHTTP not found in %s", dispFile)
+		}
+		fmt.Fprintf(&b, "/-- dispatcher.ServeHTTP: the receiver of MatchAttributes is a variable defined as `extraInfo.UpstreamCluster` -/\ndef dispatcherUsesBoundCluster : Bool := %v\n", dispatchesToBound(g, serve))
 		b.WriteString("end KG.Gen.C12\n")
 		g.Emit("C12.lean", b.String())
 	})
@@ -186,6 +194,42 @@ func comparesUpstream(g *lib.Gen, fn *ast.FuncDecl) bool {
 		return true
 	})
 	return found
+}
+
+// dispatchesToBound: `X.MatchAttributes(…)` is called on an identifier X whose every definition / assignment in the
+// function has the right-hand side `extraInfo.UpstreamCluster`.
+func dispatchesToBound(g *lib.Gen, fn *ast.FuncDecl) bool {
+	recv := ""
+	ast.Inspect(fn, func(n ast.Node) bool {
+		if c, ok := n.(*ast.CallExpr); ok {
+			if sel, ok := c.Fun.(*ast.SelectorExpr); ok && sel.Sel.Name == "MatchAttributes" {
+				if id, ok := sel.X.(*ast.Ident); ok {
+					recv = id.Name
+				}
+			}
+		}
+		return true
+	})
+	if recv == "" {
+		return false
+	}
+	defs, good := 0, 0
+	ast.Inspect(fn, func(n ast.Node) bool {
+		as, ok := n.(*ast.AssignStmt)
+		if !ok {
+			return true
+		}
+		for i, l := range as.Lhs {
+			if id, ok := l.(*ast.Ident); ok && id.Name == recv {
+				defs++
+				if len(as.Rhs) == len(as.Lhs) && exprString(g, as.Rhs[i]) == "extraInfo.UpstreamCluster" {
+					good++
+				}
+			}
+		}
+		return true
+	})
+	return defs > 0 && defs == good
 }
 
 func countMethodCalls(node ast.Node, method string) int {
